@@ -232,20 +232,35 @@ pub fn orderings(k: usize) -> Vec<Vec<(bool, usize)>> {
 
 /// Size of the canonical schedule space for k images with at most two polls per gap.
 pub fn canonical_space(k: usize) -> u64 {
-    orderings(k).len() as u64 * 3u64.pow(2 * k as u32 + 1)
+    orderings_cached(k).len() as u64 * 3u64.pow(2 * k as u32 + 1)
 }
 
-pub fn canonical_total() -> u64 {
-    (1..=3).map(canonical_space).sum()
+/// Images in flight in the complete sweep: 3 in the quick tier, 4 (the property's bound; 2 066 715 more
+/// schedules) in the thorough tier.
+pub fn canonical_kmax(thorough: bool) -> usize {
+    if thorough {
+        4
+    } else {
+        3
+    }
 }
 
-/// The `idx`-th canonical schedule (k <= 3, <= 2 polls per gap): (k, ordering, polls per gap).
-pub fn canonical(idx: u64) -> (usize, Vec<(bool, usize)>, Vec<u8>) {
+pub fn canonical_total(thorough: bool) -> u64 {
+    (1..=canonical_kmax(thorough)).map(canonical_space).sum()
+}
+
+fn orderings_cached(k: usize) -> &'static Vec<Vec<(bool, usize)>> {
+    static CACHE: std::sync::OnceLock<Vec<Vec<Vec<(bool, usize)>>>> = std::sync::OnceLock::new();
+    &CACHE.get_or_init(|| (0..=4).map(orderings).collect())[k.min(4)]
+}
+
+/// The `idx`-th canonical schedule (k <= kmax, <= 2 polls per gap): (k, ordering, polls per gap).
+pub fn canonical(idx: u64, thorough: bool) -> (usize, Vec<(bool, usize)>, Vec<u8>) {
     let mut idx = idx;
-    for k in 1..=3usize {
+    for k in 1..=canonical_kmax(thorough) {
         let sp = canonical_space(k);
         if idx < sp {
-            let ords = orderings(k);
+            let ords = orderings_cached(k);
             let gaps = 2 * k + 1;
             let per = 3u64.pow(gaps as u32);
             let o = (idx / per) as usize;
@@ -270,8 +285,8 @@ pub fn gen_c14(rng: &mut Rng, run: u64, thorough: bool) -> Trace {
     t.cfg.clock_ms = 1_700_000_000_000;
 
     // schedule
-    let (k, ordering, polls): (usize, Vec<(bool, usize)>, Vec<u8>) = if run < canonical_total() {
-        let (k, o, p) = canonical(run);
+    let (k, ordering, polls): (usize, Vec<(bool, usize)>, Vec<u8>) = if run < canonical_total(thorough) {
+        let (k, o, p) = canonical(run, thorough);
         t.labels.push("sched_kind=canonical".into());
         (k, o, p)
     } else {
@@ -329,7 +344,7 @@ pub fn gen_c14(rng: &mut Rng, run: u64, thorough: bool) -> Trace {
     // beyond the canonical sweep: some sessions belong to a viewer (not a terminal buffer), and some streams
     // carry an erase display between the images, with decodes from before it still in flight
     let mut erase_at: Vec<usize> = Vec::new();
-    if run >= canonical_total() {
+    if run >= canonical_total(thorough) {
         t.cfg.viewer = rng.chance(1, 3);
         if rng.chance(1, 3) {
             for _ in 0..1 + rng.usize(2) {
@@ -376,7 +391,25 @@ pub fn gen_c14_direct(rng: &mut Rng, thorough: bool) -> Trace {
         2 => (130, 8),
         _ => (if thorough { 512 } else { 300 }, 12),
     };
-    let p = payload(rng, mw, mr, true);
+    let mut p = payload(rng, mw, mr, true);
+    if rng.chance(1, 40) {
+        // a tall picture without a declared height: hundreds of bands, around the engine's size limit (2048 rows
+        // = band 341) and beyond it
+        let bands = *rng.pick(&[100usize, 339, 340, 341, 342, 343, 400, 700]);
+        let mut text = String::new();
+        if rng.chance(1, 3) {
+            text.push_str("#1;2;100;0;0#1");
+        }
+        text.push_str(&"~".repeat(1 + rng.usize(5)));
+        for b in 0..bands {
+            text.push('-');
+            if b + 1 == bands || rng.chance(1, 50) {
+                text.push_str(&"~".repeat(1 + rng.usize(5)));
+            }
+        }
+        p.text = text;
+        t.labels.push("shape=tall".into());
+    }
     t.labels.push(format!("shapes={:?}/{}/{}", p.shape, p.raster, if p.bad { "bad" } else { "ok" }));
     t.events.push(Ev::Load {
         entry: "Sixel::parse_from".into(),
@@ -416,6 +449,13 @@ pub fn gen_c14_load(rng: &mut Rng, thorough: bool) -> Trace {
         }
         if rng.chance(1, 4) {
             t.cfg.doc.push(-1);
+        }
+        if rng.chance(1, 12) {
+            // a decode that takes long: many polls of the drain loop find nothing finished (the sleeps are virtual)
+            for _ in 0..*rng.pick(&[19usize, 20, 21, 50, 200]) {
+                t.cfg.doc.push(-1);
+            }
+            t.labels.push("sched_shape=long_idle".into());
         }
         t.cfg.doc.push(o);
     }
